@@ -15,7 +15,7 @@ RULE = ("seqs_to_regex / seqs_to_consensus / seqlogos on every list of 1..3 equa
         "heat-map matrix vs alpha (below) / beta (above) distances in dendrogram order; non-trivial = data with at least two distinct values")
 ASSUMPTIONS = ["pixels are never inspected, only artist data", "pyplot's figure registry is environment: plt.close('all') after every call",
                "align=True paths need the external mafft-linsi binary (absent) and are outside the quantifier"]
-REQUIRED_CLASSES = {"all": ["gapped-column", "regex-language-checked", "nan-in-counts", "rare-label-black", "every-shuffle-permutation", "repeated-point", "clustermap-paired", "clustermap-single-chain", "shifted-index", "chain-boundary-shift-rows", "zero-in-counts", "non-integer-coordinates", "unsigned-counts", "same-list-edited-in-place"]}
+REQUIRED_CLASSES = {"all": ["gapped-column", "regex-language-checked", "nan-in-counts", "rare-label-black", "every-shuffle-permutation", "repeated-point", "clustermap-paired", "clustermap-single-chain", "shifted-index", "chain-boundary-shift-rows", "zero-in-counts", "non-integer-coordinates", "unsigned-counts", "same-list-edited-in-place", "dot-gaps", "partial-cluster_kws"]}
 MIN_OUTCOMES = 10
 SINGLE_THREAD_RAPIDFUZZ = True
 CD = ("CA", "CS", "AS")
@@ -126,6 +126,13 @@ def _regex(acc, case):
     if raised(r) or not isinstance(r, str):
         acc.fail("seqs_to_regex/raised", case, "a regular expression", r)
         return
+    if any(gapped):
+        # the other gap spelling ('.'): same expression
+        acc.cls("dot-gaps")
+        rd = acc.call(pyrepseq.seqs_to_regex, [s.replace("-", ".") for s in seqs], align=False)
+        if raised(rd) or rd != r:
+            acc.fail("seqs_to_regex/dot-gap-spelling", case, r, rd)
+            return
     try:
         rx = re.compile(r)
     except re.error as e:
@@ -388,7 +395,11 @@ def _cmap(acc, case):
             if index == "shifted":
                 df.index = range(11, 11 + n)
                 acc.cls("shifted-index")
-            kw = dict(cluster_kws=dict(t=1.5, criterion="distance"))   # t between the possible distances so that clusters are informative
+            # cluster_kws goes to SciPy as given: half of the cases omit the criterion (SciPy's default 'inconsistent')
+            ck = dict(t=1.5, criterion="distance") if (len(tab) + sum(a for a, b in tab)) % 2 else dict(t=1.1)
+            if "criterion" not in ck:
+                acc.cls("partial-cluster_kws")
+            kw = dict(cluster_kws=dict(ck))
             if mode == "alpha":
                 kw["beta_column"] = None
                 acc.cls("clustermap-single-chain")
@@ -412,7 +423,7 @@ def _cmap(acc, case):
                 return
             cg, linkage, cluster = r
             eL = hc.linkage(dist, method="average", optimal_ordering=True)
-            eC = hc.fcluster(eL, t=1.5, criterion="distance")
+            eC = hc.fcluster(eL, **ck)
             if not np.array_equal(np.asarray(linkage), eL) or list(cluster) != list(eC):
                 acc.fail(key + "linkage-or-cluster", rc, {"linkage": eL.tolist(), "cluster": eC.tolist()}, {"linkage": np.asarray(linkage).tolist(), "cluster": list(map(int, cluster))})
                 return
